@@ -227,8 +227,78 @@ def mqtt_backlog_part(res, tier, driver=None):
             res.corr_diffs.append({"name": "C06-mqtt-backlog", "case": line, "model": m, "impl": i})
 
 
+NODE_VERSIONS = ["2.3.2", "1.4.1", "2.4.0-alpha", "2.2.0-rc.2", "2.0.0-beta", "2.0.0-beta.2+build.5", "v2.1"]
+
+
+def static_nodes(kind, version, node_version, qos):
+    """Nodes with static ids 1 and 2 present themselves (library version `node_version`; through `logic` for the
+    serial kind, through `transport.recv` with the given QoS for the MQTT kinds), then two id requests.
+    Returns the ids handed out, or a text when something raised."""
+    import mysensors
+    pubs, out = [], []
+    if kind == "serial":
+        from mysensors.gateway_serial import SerialGateway
+        gw = SerialGateway("/dev/verif-none", protocol_version=version)
+
+        def deliver(line):
+            reply = gw.logic(line)
+            if reply:
+                out.append(reply)
+    else:
+        from mysensors.gateway_mqtt import AsyncMQTTGateway, MQTTGateway
+        cls = MQTTGateway if kind == "mqtt-sync" else AsyncMQTTGateway
+        gw = cls(lambda topic, payload, q, retain: pubs.append((topic, payload)), lambda *a: None,
+                 in_prefix="in", out_prefix="out", protocol_version=version)
+
+        def deliver(line):
+            n, c, t, a, s_, p = line.strip("\n").split(";", 5)
+            gw.tasks.transport.recv(f"in/{n}/{c}/{t}/{a}/{s_}", p, qos if t == "0" else 0)
+            queue = getattr(gw.tasks, "queue", None)
+            while queue:
+                gw.tasks.transport.send(gw.tasks.run_job(queue.popleft()))
+    try:
+        for node in (1, 2):
+            deliver(f"{node};255;0;0;{17 + node % 2};{node_version}\n")
+        for _ in range(2):
+            deliver("255;255;3;0;3;\n")
+    except Exception as e:  # noqa: BLE001
+        return f"raised {type(e).__name__}: {e}"
+    ids = [int(r.strip().split(";")[5]) for r in out if ";3;0;4;" in r]
+    ids += [int(payload) for topic, payload in pubs if topic.endswith("/255/255/3/0/4")]
+    return ids
+
+
+def static_nodes_part(res):
+    """Judged on the real code only (pre-release library versions are outside the model's version grammar;
+    the MQTT topic route is C17's model): a node whose presentation is valid by the reference is known, so its
+    id is not handed out."""
+    from . import c03
+    spec = c03.load_spec()
+    for kind in ("serial", "mqtt-sync", "mqtt-async"):
+        for version in ("1.4", "1.5", "2.0", "2.1", "2.2"):
+            for nv in NODE_VERSIONS:
+                if c03.spec_accepts(spec, version, 1, 255, 0, 0, 18, nv) is not True:
+                    continue
+                for qos in ((None,) if kind == "serial" else (0, 1, 2)):
+                    ids = static_nodes(kind, version, nv, qos)
+                    res.evaluations += 1
+                    res.count("static-nodes:" + kind)
+                    bad = None
+                    if isinstance(ids, str):
+                        bad = ids
+                    elif any(i in (1, 2) for i in ids) or len(set(ids)) != len(ids):
+                        bad = f"the id requests that followed were answered with {ids}"
+                    if bad:
+                        res.oracle_failures.append({
+                            "key": {"kind": "static-nodes", "route": kind, "what": "raised" if isinstance(ids, str) else "ids"},
+                            "replay": {"op": "static-nodes", "kind": kind, "version": version, "node_version": nv, "qos": qos},
+                            "what": f"{kind} gateway {version}: nodes 1 and 2 presented themselves with library version "
+                                    f"{nv!r}" + (f" (delivered with QoS {qos})" if qos is not None else "") + f": {bad}"})
+
+
 def run(tier, seed, driver):
     res = gwfam.run_family("C06", tier, seed, driver, CFG, relevant)
+    static_nodes_part(res)
     stopwin.part(res, "C06", driver, tier)
     unpaired_surrogate_part(res)
     mqtt_backlog_part(res, tier, driver)
@@ -241,6 +311,11 @@ def run(tier, seed, driver):
 def replay(payload):
     if payload.get("replay", {}).get("op") == "stop-window":
         return stopwin.replay(payload["replay"])
+    if payload.get("replay", {}).get("op") == "static-nodes":
+        r = payload["replay"]
+        ids = static_nodes(r["kind"], r["version"], r["node_version"], r["qos"])
+        print("ids handed out after nodes 1 and 2 presented themselves:", ids)
+        return 1 if isinstance(ids, str) or any(i in (1, 2) for i in ids) or len(set(ids)) != len(ids) else 0
     if payload.get("replay", {}).get("op") == "mqtt-backlog":
         import shutil
         import tempfile
